@@ -29,7 +29,9 @@ DTS = {
     "A": [("a", "<i4"), ("x", "<f8"), ("s", "S3")],
     "B": [("a", ">i4"), ("x", ">f8", (2,)), ("s", "S3"), ("u", ">u2")],
 }
-HDRS = {0: None, 1: {"k": 1, "note": "x END y"}, 2: {"other": [1, 2.5]}}
+HDRS = {0: None, 1: {"k": 1, "note": "x END y"}, 2: {"other": [1, 2.5]},
+        # user keys that spell the reserved words without the underscore: they are ordinary keys
+        3: {"size": 12, "nrows": 3, "delim": "x", "dtype": "f8", "version": 7}}
 
 
 def chunk(dk, start, n):
@@ -104,6 +106,11 @@ def main(ctx):
                         for hk in (0, 1):
                             for k in KS:
                                 ops.append(("create", delim, hk, k))
+                        ops.append(("create", delim, 3, 1))
+                    # append with a header argument: it is the creation header when the file does not exist yet,
+                    # and ignored otherwise
+                    ops.append(("append_h", 1, 1))
+                    ops.append(("append_h", 2, 3))
                     for k in KS:
                         ops.append(("append", k))
                     ops.append(("append", 4, None, "2d"))       # a chunk of shape (2,2): its 4 elements are 4 rows
@@ -214,6 +221,16 @@ def main(ctx):
                             sfile.write(fn, chunk(dk, start, nk), append=True)
                         if not m["exists"]:
                             m.update(exists=True, delim=None, hdr=None, n=nk)
+                        else:
+                            m["n"] += nk
+                    elif k == "append_h":
+                        _, nk, hk = op
+                        if m["exists"] and m["empty"]:
+                            return None
+                        start = m["n"] if m["exists"] else 0
+                        sfile.write(fn, chunk(dk, start, nk), header=HDRS[hk], append=True)
+                        if not m["exists"]:
+                            m.update(exists=True, delim=None, hdr=HDRS[hk], n=nk)
                         else:
                             m["n"] += nk
                     elif k == "append_bad":
@@ -333,7 +350,7 @@ def main(ctx):
 
     # the same world with the path spelled through an environment variable / through ~
     for sp in ctx.pick(["env", "pathlib"], ["env", "home", "pathlib"]):
-        ctx.histories("sfile-world(A,path:%s)" % sp, [()], pristine(make_world("A", sp)), depth=ctx.pick(3, 5), nodedup_depth=2,
+        ctx.histories("sfile-world(A,path:%s)" % sp, [()], pristine(make_world("A", sp)), depth=ctx.pick(3, 5), nodedup_depth=ctx.pick(1, 2),
                       bounds=dict(path_spelling={"env": "$C03DIR/name", "home": "~/name", "pathlib": "pathlib.Path(name)"}[sp]))
 
     # seeded from non-initial states: pre-existing files written through other routes
